@@ -44,6 +44,7 @@ type Engine struct {
 	assumpLog map[string]bool
 	errors    []string
 	curFn     string
+	curCase   int
 	curTags   map[string]bool // tags to generate for (nil = all)
 	pathCount int
 	inlineDep int
